@@ -104,45 +104,74 @@ theorem stream_whole (ty : Nat) (ids : Bytes) (hids : ids ≠ []) (s : RState) (
 
 /-! ### chunk lines carry no surrounding white space -/
 
-open Trim in
-theorem trimLeft_of_head (c : UInt8) (t : Bytes) (h : isSpace c = false) : trimLeft (c :: t) = c :: t := by
-  simp [trimLeft, h]
+/-- an ASCII byte that is not white space -/
+def plainByte (c : UInt8) : Bool := c < 0x80 && !(c == 32 || (9 ≤ c && c ≤ 13))
 
-open Trim in
-theorem trimRight_of_last (xs : Bytes) (c : UInt8) (h : isSpace c = false) : trimRight (xs ++ [c]) = xs ++ [c] := by
-  induction xs with
-  | nil => simp [trimRight, h]
-  | cons x xs ih =>
-    simp only [List.cons_append, trimRight, ih]
-    cases hx : xs ++ [c] with
-    | nil => simp at hx
-    | cons _ _ => rfl
+theorem plainByte_lt (c : UInt8) (h : plainByte c = true) : c.toNat < 128 := by
+  simp only [plainByte, Bool.and_eq_true, decide_eq_true_eq] at h
+  exact UInt8.lt_iff_toNat_lt.mp h.1
 
-theorem encChar_not_space : ∀ n, n < 64 → Trim.isSpace (B64.encChar n) = false := by decide
+theorem dropSpace1_plain (c : UInt8) (r : Bytes) (h : plainByte c = true) : Bytes.dropSpace1 (c :: r) = none := by
+  have hlt := plainByte_lt c h
+  unfold Bytes.dropSpace1
+  split
+  all_goals first
+    | rfl
+    | (rename_i heq; simp only [List.cons.injEq] at heq; obtain ⟨rfl, _⟩ := heq; exact absurd h (by decide))
+    | (rename_i heq; simp only [List.cons.injEq] at heq; obtain ⟨rfl, _⟩ := heq; exact absurd hlt (by decide))
 
-theorem encode_no_space (b : Bytes) : ∀ c ∈ B64.encode b, Trim.isSpace c = false := by
-  have hp : Trim.isSpace B64.pad = false := by decide
+theorem dropSpace1Rev_plain (c : UInt8) (r : Bytes) (h : plainByte c = true) : Bytes.dropSpace1Rev (c :: r) = none := by
+  have hlt := plainByte_lt c h
+  unfold Bytes.dropSpace1Rev
+  split
+  all_goals first
+    | rfl
+    | (rename_i heq; simp only [List.cons.injEq] at heq; obtain ⟨rfl, _⟩ := heq; exact absurd h (by decide))
+    | (rename_i heq; simp only [List.cons.injEq] at heq; obtain ⟨rfl, _⟩ := heq; exact absurd hlt (by decide))
+    | (rename_i heq; simp only [List.cons.injEq] at heq; obtain ⟨rfl, _⟩ := heq
+       rw [if_neg]
+       simp only [UInt8.le_iff_toNat_le, ← UInt8.toNat_inj, UInt8.toNat_ofNat, UInt8.reduceToNat]
+       omega)
+
+/-- a line that neither starts nor ends with a white-space rune is left alone by `strings.TrimSpace` -/
+theorem trimSpace_id (l : Bytes) (h1 : Bytes.dropSpace1 l = none) (h2 : Bytes.dropSpace1Rev l.reverse = none) :
+    trimSpace l = l := by
+  have hl : ∀ n, Bytes.trimLeft n l = l := by
+    intro n; cases n with
+    | zero => rfl
+    | succ n => simp only [Bytes.trimLeft, h1]
+  have hr : ∀ n, Bytes.trimRightRev n l.reverse = l.reverse := by
+    intro n; cases n with
+    | zero => rfl
+    | succ n => simp only [Bytes.trimRightRev, h2]
+  unfold trimSpace Bytes.trimSpace
+  simp only [hl, hr, List.reverse_reverse]
+
+theorem encChar_plain : ∀ n, n < 64 → plainByte (B64.encChar n) = true := by decide
+
+theorem encode_plain (b : Bytes) : ∀ c ∈ B64.encode b, plainByte c = true := by
+  have hp : plainByte B64.pad = true := by decide
   fun_induction B64.encode b with
   | case1 => simp
   | case2 a =>
     have ha := a.toNat_lt
     intro c hc
     simp only [List.mem_cons, List.not_mem_nil, or_false] at hc
-    rcases hc with h | h | h | h <;> subst h <;> first | exact hp | exact encChar_not_space _ (by omega)
+    rcases hc with h | h | h | h <;> subst h <;> first | exact hp | exact encChar_plain _ (by omega)
   | case3 a b =>
     have ha := a.toNat_lt; have hb := b.toNat_lt
     intro c hc
     simp only [List.mem_cons, List.not_mem_nil, or_false] at hc
-    rcases hc with h | h | h | h <;> subst h <;> first | exact hp | exact encChar_not_space _ (by omega)
+    rcases hc with h | h | h | h <;> subst h <;> first | exact hp | exact encChar_plain _ (by omega)
   | case4 a b c rest ih =>
     have ha := a.toNat_lt; have hb := b.toNat_lt; have hc := c.toNat_lt
     intro x hx
     simp only [List.mem_cons] at hx
     rcases hx with h | h | h | h | h
-    · subst h; exact encChar_not_space _ (by omega)
-    · subst h; exact encChar_not_space _ (by omega)
-    · subst h; exact encChar_not_space _ (by omega)
-    · subst h; exact encChar_not_space _ (by omega)
+    · subst h; exact encChar_plain _ (by omega)
+    · subst h; exact encChar_plain _ (by omega)
+    · subst h; exact encChar_plain _ (by omega)
+    · subst h; exact encChar_plain _ (by omega)
     · exact ih x h
 
 theorem encode_ne_nil (b : Bytes) (h : b ≠ []) : B64.encode b ≠ [] := by
@@ -164,7 +193,7 @@ theorem trimSpace_chunkLine (g : Img) (ids : Bytes) (total i : Nat) (hi : i < to
   have henc := encode_ne_nil _ (segment_ne_nil g i hi)
   obtain ⟨ys, c, hyc⟩ : ∃ ys c, B64.encode (segment g i) = ys ++ [c] :=
     ⟨_, _, (List.dropLast_concat_getLast henc).symm⟩
-  have hc : Trim.isSpace c = false := encode_no_space _ c (by rw [hyc]; simp)
+  have hc : plainByte c = true := encode_plain _ c (by rw [hyc]; simp)
   obtain ⟨t, ht⟩ : ∃ t, chunkLine g ids total i = 72 :: t := by
     unfold chunkLine cmdString
     split
@@ -174,8 +203,9 @@ theorem trimSpace_chunkLine (g : Img) (ids : Bytes) (total i : Nat) (hi : i < to
       · exact ⟨_, by simp [pHWCg]; rfl⟩
   obtain ⟨xs, hxs⟩ : ∃ xs, chunkLine g ids total i = xs ++ [c] := by
     unfold chunkLine; rw [hyc]; exact ⟨_, by rw [← List.append_assoc]⟩
-  unfold trimSpace Trim.trimSpace
-  rw [ht, trimLeft_of_head 72 t (by decide), ← ht, hxs, trimRight_of_last xs c hc]
+  apply trimSpace_id
+  · rw [ht]; exact dropSpace1_plain 72 t (by decide)
+  · rw [hxs, List.reverse_append]; exact dropSpace1Rev_plain c _ hc
 
 /-- **streaming**: the encoder's lines, one at a time from any reader state, give exactly one message carrying `g`,
 at the last line; the reader ends up reset -/
